@@ -366,7 +366,7 @@ func main() {
 				"VERIF_TIER="+tier, "VERIF_SHARD="+strconv.Itoa(i), "VERIF_NSHARDS="+strconv.Itoa(n),
 				"VERIF_OUT="+out, "VERIF_WORK="+work, "VERIF_REPO="+repo, "VERIF_SITES="+filepath.Join(scratch, "sites.json"),
 				"VERIF_DEADLINE_S="+strconv.Itoa(dl), "VERIF_SEED="+strconv.Itoa(seed), "VERIF_TBIN="+tbin,
-				"NO_COLOR=1", "GOMAXPROCS=2")
+				"GOMAXPROCS=2")
 			if *replay != "" {
 				e = append(e, "VERIF_REPLAY="+*replay)
 			}
@@ -400,7 +400,7 @@ func main() {
 		if tier == "thorough" {
 			reps = "25"
 		}
-		e := append(os.Environ(), "VERIF_TIER="+tier, "VERIF_WORK="+work, "VERIF_REPO="+repo, "VERIF_RACE_REPS="+reps, "NO_COLOR=1", "GORACE=halt_on_error=0")
+		e := append(os.Environ(), "VERIF_TIER="+tier, "VERIF_WORK="+work, "VERIF_REPO="+repo, "VERIF_RACE_REPS="+reps, "GORACE=halt_on_error=0")
 		log, rerr := run(work, e, rbin, "-test.run", "^"+raceTest+"$", "-test.count=1", "-test.timeout=0")
 		nraces := strings.Count(log, "WARNING: DATA RACE")
 		raceInfo = map[string]any{"test": raceTest, "data_races_reported": nraces, "repetitions_per_gomaxprocs": reps, "gomaxprocs": []int{2, 4, 16}, "note": "sampling; supports the data-race-freedom assumption, does not decide it"}
